@@ -877,3 +877,66 @@ Qed.
 (* join consumes the dispatcher: nothing is accepted afterwards *)
 Theorem no_dispatch_after_join s ok : jp s <> JIdle -> step s (EDispatch ok) = None.
 Proof. intros H. cbn [step]. destruct (jp s); [congruence|reflexivity|reflexivity]. Qed.
+
+(* a closure's panic (inside its future, or synchronously at its first poll
+   before it returned one: both are the label EFinish _ _ false) stays in its
+   task: no worker dies by it, the channel, the sender and every other task are
+   untouched, so it can never be the panic that join re-raises *)
+Theorem task_panic_confined s w t ok s' :
+  step s (EFinish w t ok) = Some s' ->
+  q s' = q s /\ sender s' = sender s /\ jp s' = jp s /\
+  (forall u, u <> t -> nth_error (ts s') u = nth_error (ts s) u) /\
+  (forall v p, nth_error (ws s') v = Some p -> is_dead p = true -> nth_error (ws s) v = Some p) /\
+  existsb is_panicked (ws s') = existsb is_panicked (ws s).
+Proof.
+  intros H. cbn [step] in H.
+  destruct (nth_error (ws s) w) as [p|] eqn:Ew; [|discriminate H].
+  destruct (nth_error (ts s) t) as [x0|] eqn:Et; [|discriminate H].
+  destruct (ph x0) as [| | |w'| | | |] eqn:Ep; try discriminate H.
+  destruct (alive_wpc p && Nat.eqb w' w) eqn:Eb; [|discriminate H].
+  apply andb_true_iff in Eb. destruct Eb as [E1 _].
+  unfold alive_wpc in E1. apply negb_true_iff in E1.
+  injection H as <-. cbn [q sender jp ts ws w_ws w_ts].
+  split; [reflexivity|]. split; [reflexivity|]. split; [reflexivity|].
+  split; [intros u Hu; apply nth_upd_neq; exact Hu|].
+  assert (Hcase : (match p with
+                   | WAwait t' => if Nat.eqb t' t then upd (ws s) w WRecv else ws s
+                   | _ => ws s
+                   end = ws s) \/
+                  (match p with
+                   | WAwait t' => if Nat.eqb t' t then upd (ws s) w WRecv else ws s
+                   | _ => ws s
+                   end = upd (ws s) w WRecv)).
+  { destruct p; try (left; reflexivity). destruct (Nat.eqb t0 t); [right|left]; reflexivity. }
+  destruct Hcase as [-> | ->]; [split; [intros v p0 Hv _; exact Hv|reflexivity]|].
+  split.
+  - intros v p0 Hv Hd. apply nth_upd_cases in Hv. destruct Hv as [(_ & -> & _)|(_ & Hv)];
+      [discriminate Hd|exact Hv].
+  - (* replacing a live worker state by WRecv changes nobody's panicked flag *)
+    unfold upd. rewrite Ew.
+    rewrite <- (firstn_skipn w (ws s)) at 3.
+    assert (Hsk : skipn w (ws s) = p :: skipn (S w) (ws s)).
+    { clear - Ew. revert w Ew. induction (ws s) as [|a l IH]; intros w Ew; destruct w; cbn in *;
+        try discriminate; [injection Ew as ->; reflexivity|apply IH; exact Ew]. }
+    rewrite Hsk, !existsb_app. cbn [existsb]. destruct p; try reflexivity. discriminate E1.
+Qed.
+
+(* none stranded: a task spawned on a runtime that still exists can be started,
+   whatever else is pending on that runtime and without any further event from
+   outside (no dispatch, no wake-up, no join is needed to enable it) *)
+Theorem spawned_task_startable c n es s t x w :
+  steps (init c n) es = Some s -> nth_error (ts s) t = Some x -> ph x = TSpawned w ->
+  exists s', step s (EStart w t) = Some s' /\
+             exists x', nth_error (ts s') t = Some x' /\ ph x' = TRunning w /\ starts x' = 1.
+Proof.
+  intros H Hx Hp. destruct (reachable_inv _ _ _ _ H) as [[T Q Q2 L2 L3 S T7 Ja Jb P1 P2 W0] C].
+  assert (Ho : on_rt w x = true) by (unfold on_rt; rewrite Hp; apply Nat.eqb_refl).
+  destruct (L3 _ _ _ Hx Ho) as (p & Hw & Hr).
+  pose proof (Forall_nth _ _ _ _ T Hx) as Ht. unfold tinv in Ht. rewrite Hp in Ht.
+  destruct Ht as (_ & _ & Hst & _).
+  cbn [step]. rewrite Hw, Hx, Hp.
+  assert (Ha : alive_wpc p = true) by (destruct p; try reflexivity; discriminate Hr).
+  rewrite Ha, Nat.eqb_refl. cbn [andb]. eexists. split; [reflexivity|].
+  cbn [ts w_ts]. eexists. split; [apply (nth_upd_eq _ _ _ _ Hx)|]. cbn. rewrite Hst.
+  split; reflexivity.
+Qed.
